@@ -13,7 +13,7 @@ func init() {
 		"(R1) every STH returned by LogSTHGetter.GetSTH is built in that call from the backend root just fetched: TreeSize ← root.TreeSize, Timestamp ← root.TimestampNanos / 1 000 000 (ns → ms), SHA256RootHash ← root.RootHash, Version V1, signed by signV1TreeHead with the log's signer, and a signing error or empty signature is an error; the root is fetched exactly once per call (by the GetLatestSignedLogRoot RPC in the getter or by the one function it calls that issues it), the request goes to this instance's backend client with this instance's log id whichever way these values reach the RPC, and the function issuing the RPC rejects backend errors, missing or garbled roots and hashes that are not 32 bytes and hands on the root decoded from the reply; "+
 		"(R2) signV1TreeHead signs SHA-256 of SerializeSTHSignatureInput(*sth) with SHA-256 options and uses a cached signature only when the cache holds a signature for exactly those bytes; "+
 		"(R3) SignatureCache and ctutil.LogInfo state is accessed under its mutex; "+
-		"(R4) get-sth-consistency / get-proof-by-hash / get-entry-and-proof forward first/second, hash/tree_size, leaf_index/tree_size to the backend fields of the same meaning on this log and relay the proof hashes, leaf index and leaf bytes of the backend's reply; first = 0 ⇒ empty proof; writeSTH serialises the STH it was given; "+
+		"(R4) get-sth-consistency / get-proof-by-hash / get-entry-and-proof forward first/second, hash/tree_size, leaf_index/tree_size to the backend fields of the same meaning on this log and relay the proof hashes, leaf index and leaf bytes of the backend's reply (whichever function issues the RPC: the handler or the one function it calls for it), and the leaf get-entry-and-proof relays has gone through FixLogLeaf, its failure blocking success; first = 0 ⇒ empty proof; writeSTH serialises the STH it was given; "+
 		"(R5) the client library sends each argument under its RFC 6962 parameter name and VerifyInclusionAt verifies (index, size, leaf hash, path, root) in that order and returns the index only after verification; the leaf hash is SHA-256(0x00 ‖ leaf); "+
 		"(R6) the STH getter is chosen only in newLogInfo and get-sth reaches the backend only through it. "+
 		"NOT covered: append-only-ness and proof validity (backend + Merkle library), linkage of STHs across a history, sequencing, concurrency of handlers beyond the shared state of R3.",
@@ -304,19 +304,27 @@ func c06Forwarding(r *Run) {
 		}
 	}
 	if fn := r.Fn("trillian/ctfe.getEntryAndProof"); fn != nil {
-		if c := r.OneCall(fn, "entry-proof:rpc", "trillian/ctfe.rpcGetEntryAndProof"); c != nil {
-			r.ExpectFields(fn, "entry-proof:req", CallArgs(c)[2], map[string]string{
-				"LogId":     "p1.logID",
-				"LeafIndex": "trillian/ctfe.parseGetEntryAndProofParams(p3)#0",
-				"TreeSize":  "trillian/ctfe.parseGetEntryAndProofParams(p3)#1",
-			})
-		}
-		if j := r.OneCall(fn, "entry-proof:json", "json.Marshal"); j != nil {
-			r.ExpectFields(fn, "entry-proof:rsp", c06Built(CallArgs(j)[0], j), map[string]string{
-				"LeafInput": "trillian/ctfe.rpcGetEntryAndProof(*)#0.Leaf.LeafValue",
-				"ExtraData": "trillian/ctfe.rpcGetEntryAndProof(*)#0.Leaf.ExtraData",
-				"AuditPath": "trillian/ctfe.rpcGetEntryAndProof(*)#0.Proof.Hashes",
-			})
+		// the fetch of the backend's reply: the GetEntryAndProof RPC in the handler itself or in the one function
+		// the handler calls for it — the facts below are stated on whichever function issues the RPC
+		if f := c06BackendFetch(r, fn, "entry-proof:rpc", "GetEntryAndProof"); f != nil {
+			if req := f.request(r, "entry-proof:req"); req != nil {
+				r.ExpectFields(fn, "entry-proof:req", req, map[string]string{
+					"LogId":     "p1.logID",
+					"LeafIndex": "trillian/ctfe.parseGetEntryAndProofParams(p3)#0",
+					"TreeSize":  "trillian/ctfe.parseGetEntryAndProofParams(p3)#1",
+				})
+			}
+			f.relays(r, "entry-proof:rpc", "p1")
+			if j := r.OneCall(fn, "entry-proof:json", "json.Marshal"); j != nil {
+				r.ExpectFields(fn, "entry-proof:rsp", c06Built(CallArgs(j)[0], j), map[string]string{
+					"LeafInput": f.reply() + ".Leaf.LeafValue",
+					"ExtraData": f.reply() + ".Leaf.ExtraData",
+					"AuditPath": f.reply() + ".Proof.Hashes",
+				})
+			}
+			// "the stored entry decodes to the submitted certificate and chain": the leaf relayed went through
+			// FixLogLeaf (restores a chain kept outside the backend) before its extra data is read
+			f.chainRestored(r, "entry-proof:chain-restored")
 		}
 	}
 	if fn := r.Fn("trillian/ctfe.parseGetEntryAndProofParams"); fn != nil {
